@@ -406,6 +406,7 @@ func parseClause(c *Contract, t string, line int) error {
 	case "at":
 		// at call <key> #<n>: E   - E is asserted (and then assumed) just before
 		// the n-th call of <key> in source order; use()/unfold() hints cost nothing
+		atTags, rest := parseTags(rest)
 		f := strings.Fields(rest)
 		if len(f) < 4 || f[0] != "call" || !strings.HasPrefix(f[2], "#") {
 			return fmt.Errorf("bad 'at' clause: %q", t)
@@ -424,7 +425,7 @@ func parseClause(c *Contract, t string, line int) error {
 		if err != nil {
 			return fmt.Errorf("at: %v", err)
 		}
-		c.Clauses = append(c.Clauses, &Clause{Kind: "at", Name: f[1], Loop: n, Text: body, Expr: e, Line: line})
+		c.Clauses = append(c.Clauses, &Clause{Kind: "at", Name: f[1], Loop: n, Text: body, Expr: e, Line: line, Tags: atTags})
 	case "updates":
 		// updates p, q: the callee changes the contents of these (slice)
 		// parameters in place; the caller's variable gets the new value
